@@ -161,6 +161,27 @@ CLAIMED["C17"] = dict(
    technique="Coq proof (guards over R, counting argument over any carrier) + AST translator + extracted-model correspondence",
    design="DESIGN.md section 4, C17")
 
+CLAIMED["C01"] = dict(
+   text="Coq theorems (Coquelicot derivatives; mathcomp determinants over R) about the formulas regenerated from the "
+        "source on every run: for the rational-quadratic, linear and quadratic spline bins, exp, tanh, sigmoid (any "
+        "temperature), Cauchy CDF, leaky ReLU (off its kink), the gated linear unit, the affine coupling/"
+        "autoregressive kernel and the ActNorm / BatchNorm element, the returned log-abs-det is the logarithm of the "
+        "(positive) derivative of the returned output - at every point of the domain including bin end points and for "
+        "every box, the box scale term ln((top-bottom)/(right-left)) being exactly what the de-normalisation step "
+        "adds; a triangular Jacobian (diagonal for elementwise maps, lower triangular for masked autoregressive "
+        "transforms by C06, triangular up to the mask permutation for couplings by C07) has log|det| equal to the "
+        "sum of the per-element log-dets, permutation conjugation leaves it unchanged, and for compositions "
+        "log-dets add. PARTIAL: the cubic bin's derivative identity, the 1x1-convolution block structure, the LU/QR/"
+        "SVD determinants (see C11) and UMNN's quadrature are not proved. Tie: extracted spline and nonlinearity "
+        "models vs the implementation; search: autograd Jacobian per batch item vs returned log-abs-det for every "
+        "catalogue transform (all classes, 2-D and 4-D, context, tails, cache) and for the public spline functions "
+        "on knots / end points / five boxes.",
+   note="Trusted: Coq kernel; Reals/Coquelicot axioms plus ClassicalEpsilon.constructive_indefinite_description (R as a "
+        "mathcomp choice type); translator; extraction; harness; autograd for the search. UMNN's returned 'jac' is "
+        "the integrand (derivative of the exact integral), its quadrature error is runtime behaviour.",
+   technique="Coq proof (Coquelicot auto_derive/field, mathcomp det_trig/det_mulmx) + AST translator + correspondence",
+   design="DESIGN.md section 4, C01")
+
 def main():
     checks = []
     for pid in ALL:
